@@ -64,6 +64,8 @@ class Design:
     self.netinfo = []    # dict(writer, members, kind)  (what the generator intends)
     self.labels = []     # injected defects
     self.safe_src = set()  # objects whose value does not depend on any update block
+    self.tags = []         # directed shapes present in the design (histograms)
+    self.nest = {}         # slice object -> chain of relative slices it is written as in connect statements (x[4:8][0:2] for x[4:6])
 
   # ------------------------------------------------------------------ structure
   def add_comp(self, name, parent):
@@ -139,11 +141,13 @@ class Design:
     if o[3] is not None: lo, hi = lo + o[3][0], lo + o[3][1]
     return {(o[1], b) for b in range(lo, hi)}
 
-  def suffix(self, o):
+  def suffix(self, o, nested=False):
     t = self.sigs[o[1]]['type']; s = ''
     for k in o[2]:
       s += '.' + STRUCTS[t[1]][k][0]; t = STRUCTS[t[1]][k][1]
-    if o[3] is not None: s += f'[{o[3][0]}:{o[3][1]}]'
+    if o[3] is not None:
+      if nested and o in self.nest: s += ''.join(f'[{a}:{b}]' for (a, b) in self.nest[o])
+      else: s += f'[{o[3][0]}:{o[3][1]}]'
     return s
 
   def orepr(self, o):
@@ -154,8 +158,9 @@ class Design:
     p = self.comps[sg['comp']]['path']
     return 's.' + (p + '.' if p else '') + sg['name'] + self.suffix(o)
 
-  def oexpr(self, o, at):
-    """source text of the object as seen from component `at` (an ancestor-or-self of its host)"""
+  def oexpr(self, o, at, nested=False):
+    """source text of the object as seen from component `at` (an ancestor-or-self of its host); nested: write a
+    slice as the slice-of-slice chain chosen for it (only in connect statements: update blocks do not accept it)"""
     if o[0] == 'const':
       c = self.consts[o[1]]
       return tconst_src(c['type'], c['value'])
@@ -163,7 +168,7 @@ class Design:
     hp, ap = self.comps[sg['comp']]['path'], self.comps[at]['path']
     assert hp == ap or hp.startswith(ap + '.') or ap == '', (hp, ap)
     rel = hp[len(ap):].lstrip('.')
-    return 's.' + (rel + '.' if rel else '') + sg['name'] + self.suffix(o)
+    return 's.' + (rel + '.' if rel else '') + sg['name'] + self.suffix(o, nested)
 
   def share_bit(self, a, b):
     return bool(self.obits(a) & self.obits(b))
@@ -348,7 +353,7 @@ class Design:
   def stmt_src(self, comp, st, flip, style):
     if st[0] == 'conn':
       c = self.conns[st[1]]
-      a, b = self.oexpr(c['a'], comp), self.oexpr(c['b'], comp)
+      a, b = self.oexpr(c['a'], comp, True), self.oexpr(c['b'], comp, True)
       if flip: a, b = b, a
       if style and a.startswith('s.') and not a.endswith(']') and self.is_plain(c['b'] if flip else c['a']):
         return [f'    {a} //= {b}']
@@ -580,8 +585,72 @@ def gen_legal(rng, nnets=None, levels=None, extra_blocks=True, d1=False):
         for x in d.relatives(o, rng):
           if x not in d.nodes and d.free(x, same=('blk', blk['id'])) and rng.random() < 0.5:
             d.add_write(blk, x, rng); break
-  if d1: add_d1_shape(d, rng)
+  if d1 and add_d1_shape(d, rng): d.tags.append('d1')
+  if rng.random() < 0.35: add_slice_key_collision(d, rng)
+  assign_nests(d, rng)
   return d
+
+def make_nest(rng, lo, hi, W):
+  """a chain of relative slices (depth 2, sometimes 3) that denotes [lo:hi) of a W-bit signal, or None"""
+  if hi - lo >= W: return None
+  for _ in range(8):
+    olo = rng.randint(0, lo) if rng.random() < 0.2 else rng.randint(min(1, lo), lo)
+    ohi = rng.randint(hi, W)
+    if (olo, ohi) in ((lo, hi), (0, W)): continue
+    chain = [(olo, ohi)]
+    if rng.random() < 0.3 and (ohi - olo) > (hi - lo):
+      mlo = rng.randint(olo, lo); mhi = rng.randint(hi, ohi)
+      if (mlo, mhi) not in ((lo, hi), (olo, ohi)):
+        chain.append((mlo - olo, mhi - olo)); olo = mlo
+    chain.append((lo - olo, hi - olo))
+    return chain
+  return None
+
+def assign_nests(d, rng, p=0.45):
+  """write some of the slices that occur in connect statements as slices of slices"""
+  for o in d.all_objects():
+    if o[0] == 'sig' and o[3] is not None and o not in d.nest and rng.random() < p:
+      W = twidth(d.otype(('sig', o[1], o[2], None)))
+      ch = make_nest(rng, o[3][0], o[3][1], W)
+      if ch: d.nest[o] = ch
+
+def add_slice_key_collision(d, rng):
+  """x[olo:ohi][r:r+w] (= x[olo+r : olo+r+w], outer slice not starting at 0) and the plain x[r:r+w] of the same signal,
+  two disjoint ranges, used in different nets (or one written by a block): they must stay two objects"""
+  comp = rng.randrange(len(d.comps))
+  W = rng.choice([8, 12])
+  x = d.add_sig(comp, f'x{len(d.sigs)}', 'wire', ('b', W))
+  w = rng.randint(1, 3); r = rng.randint(0, min(2, (W - 2 * w) // 2))
+  olo = rng.randint(r + w, W - r - w)
+  ohi = rng.randint(olo + r + w, W)
+  A = ('sig', x, (), (olo + r, olo + r + w)); B = ('sig', x, (), (r, r + w))
+  chain = [(olo, ohi), (r, r + w)]
+  if rng.random() < 0.3 and ohi - olo >= r + w + 1 and r >= 1:
+    # depth 3: x[olo:ohi][1:..][r-1:r-1+w]
+    chain = [(olo, ohi), (1, ohi - olo), (r - 1, r - 1 + w)]
+    B = ('sig', x, (), (r - 1, r - 1 + w))
+  d.nest[A] = chain
+  if rng.random() < 0.3 and B[3][1] < olo:
+    d.nest[B] = [(0, olo), B[3]]           # the partner nested too, outer slice starting at 0
+  typ = ('b', w)
+  def source():
+    y = d.whole(d.add_sig(comp, f'x{len(d.sigs)}', 'wire', typ))
+    if rng.random() < 0.5: _blk_write(d, rng, comp, y)
+    else: assert _const_on(d, rng, y)
+    return y
+  mode = rng.choice(['two-nets', 'two-nets', 'same-net', 'block-and-net', 'net-and-block'])
+  if mode == 'two-nets':
+    for o in rng.sample([A, B], 2): d.add_conn(source(), o, comp)
+  elif mode == 'same-net':
+    y = source()
+    for o in rng.sample([A, B], 2): d.add_conn(y, o, comp)
+  elif mode == 'block-and-net':
+    _blk_write(d, rng, comp, B); d.add_conn(source(), A, comp)
+  else:
+    _blk_write(d, rng, comp, A); d.add_conn(source(), B, comp)     # A only ever written plainly in the block
+    d.add_conn(A, d.whole(d.add_sig(comp, f'x{len(d.sigs)}', 'wire', typ)), comp)   # ... and nested in a connect
+  for o in (A, B): d.drive(o, ('net', ('gadget', x))); d.marked.add(o)
+  d.tags.append('slice-key-collision:' + mode)
 
 def gen_self_overlap(rng):
   """a net whose reader shares bits with its own writer: x[a:b] drives x[c:d] of the same signal"""
@@ -1170,7 +1239,8 @@ def design_to_json(d):
     conns=[[_o2j(c['a']), _o2j(c['b']), c['at'], c['auto']] for c in d.conns],
     blks=[[b['comp'], b['ff'], [[_o2j(t), op, [rhs[0]] + ([rhs[1]] if rhs[0] == 'k' else [_o2j(rhs[1])] if rhs[0] == 'r' else [])]
                                 for (t, op, rhs) in b['stmts']], [_o2j(r) for r in b.get('extra_reads', [])]] for b in d.blks],
-    labels=[list(l) for l in d.labels])
+    labels=[list(l) for l in d.labels], tags=list(d.tags),
+    nest=[[_o2j(o), [list(c) for c in ch]] for o, ch in d.nest.items()])
 
 def design_from_json(j):
   d = Design(next(_uid))
@@ -1197,6 +1267,8 @@ def design_from_json(j):
       if r[0] == 'inc': b['reads'].append(_j2o(t))
     if extra: b['extra_reads'] = [_j2o(r) for r in extra]
   d.labels = [tuple(l) for l in j.get('labels', [])]
+  d.tags = list(j.get('tags', []))
+  d.nest = {_j2o(o): [tuple(c) for c in ch] for o, ch in j.get('nest', [])}
   return d
 
 def variant_to_json(var):
